@@ -171,3 +171,17 @@ func steady(n int, xs []byte) (int, int) {
 
 	return i, off
 }
+
+// 14. &s[i] is an opaque address: the index obligation is generated as for a read, the result is non-nil, and any
+// access through the pointer inside the function under proof is refused (the slice-cell alias is not modelled).
+type cell struct{ v int }
+
+func carve(cs []cell, i int) *cell { return &cs[i] }
+
+func carveOK(cs []cell, i int) *cell { return &cs[i] }
+
+func carveUse(cs []cell, i int) int {
+	p := &cs[i]
+
+	return p.v
+}
